@@ -31,6 +31,7 @@ pub trait TemplateRegistry: Sized {
         // register common filters
         tera.register_filter("escape_js", escape_js_filter);
         tera.register_filter("add_types_prefix", add_types_prefix_filter);
+        tera.register_filter("ts_key", ts_key_filter);
 
         // register registry specific templates
         Self::register_templates(&mut tera)?;
@@ -60,6 +61,41 @@ fn escape_js_filter(value: &Value, _args: &HashMap<String, Value>) -> tera::Resu
         Ok(Value::String(escaped))
     } else {
         Err("escape_js filter expects a string".into())
+    }
+}
+
+/// Filter to render a property key: identifiers are emitted as they are, any other string
+/// (kebab-case, leading digit, spaces, ...) is emitted as a quoted and escaped string literal
+/// Usage: {{ field.serializedName | ts_key }}
+fn ts_key_filter(value: &Value, _args: &HashMap<String, Value>) -> tera::Result<Value> {
+    if let Some(key) = value.as_str() {
+        Ok(Value::String(ts_property_key(key)))
+    } else {
+        Err("ts_key filter expects a string".into())
+    }
+}
+
+/// Render a string as a TypeScript property key, quoting it when it is not an identifier
+fn ts_property_key(key: &str) -> String {
+    let mut chars = key.chars();
+    let is_identifier = match chars.next() {
+        Some(first) => {
+            (first.is_ascii_alphabetic() || first == '_' || first == '$')
+                && chars.all(|c| c.is_ascii_alphanumeric() || c == '_' || c == '$')
+        }
+        None => false,
+    };
+
+    if is_identifier {
+        key.to_string()
+    } else {
+        let escaped = key
+            .replace('\\', "\\\\")
+            .replace('"', "\\\"")
+            .replace('\n', "\\n")
+            .replace('\r', "\\r")
+            .replace('\t', "\\t");
+        format!("\"{}\"", escaped)
     }
 }
 
